@@ -724,6 +724,7 @@ def main(tier, only=None):
         "mut_skirt": ("StripesMC", "Stripes_MutSkirt.cfg", 2, "invariant"),
         "mut_f3": ("StripesMC", "Stripes_MutF3.cfg", 2, "invariant"),      # the code before the repair of F3 / F4: not exact
         "mut_f4": ("StripesMC", "Stripes_MutF4.cfg", 2, "invariant"),
+        "mut_f12": ("StripesMC", "Stripes_MutF12.cfg", 2, "invariant"),    # split offset before the stride multiplication (F1/F2)
         "cascade": ("Cascade", "Cascade_Quick.cfg" if quick else "Cascade_MC.cfg", 8, "ok"),
         "cascade_s3": ("Cascade", "Cascade_S3.cfg" if quick else "Cascade_S3T.cfg", 4, "ok"),
         "cascade_short": ("Cascade", "Cascade_Short.cfg", 1, "invariant"),
@@ -743,7 +744,7 @@ def main(tier, only=None):
     pool.shutdown()
     for k, res in mc.items():
         run.add_mc("%s/%s" % (jobs[k][0], jobs[k][1]), res)
-    for k in ("mut_padtop", "mut_ltle", "mut_skirt", "mut_f3", "mut_f4"):
+    for k in ("mut_padtop", "mut_ltle", "mut_skirt", "mut_f3", "mut_f4", "mut_f12"):
         if mc[k].get("violated") != "ExactWhereClaimed":
             raise MachineryError("seeded mutant %s violated %s instead of ExactWhereClaimed" % (k, mc[k].get("violated")))
     if mc["cascade_short"].get("violated") != "NoEarlyOverwrite":
